@@ -55,6 +55,10 @@ def c01_trace(tid, m, d, tbytes, expressible):
     e = {"op": "enc", "m": m, "bytes": [], "raised": ""}
     try:
         o = P.build(m)
+        # the object must carry the field values it was constructed with (a constructor that replaces a legal value - 0, an empty
+        # list - by a default sends a different message than the caller asked for)
+        if not (m["t"] == "DevIdReq" and m.get("code") not in (1, 2, 3, 4)):     # (read code 0 is not a legal value: the library reads it as "not given")
+            out.append({"id": tid + "c", "ev": [{"op": "ctor", "m": m, "got": P.project(o), "raised": ""}]})
         e["m"] = P.project(o)        # the field values the message object actually carries
         e["bytes"] = list(bytes([o.function_code]) + o.encode())
     except Exception as ex:
